@@ -123,6 +123,29 @@ func (g *G) props(scope int, cfg *Cfg) []ref.Prop {
 			for i := 0; i < n; i++ {
 				out = append(out, g.propValue(d, false))
 			}
+			if n >= 2 && t.Bool(1, 8) {
+				// two ADJACENT keys that are equal to a careless comparison and different to
+				// MQTT: they differ in letter case only (header names), long enough to look
+				// worth interning
+				i := first + t.Int(n-1)
+				k := out[i].K
+				if t.Bool(1, 2) || len(k) < 9 {
+					k = []byte([]string{"Content-Type", "X-Request-Id", "correlation-id", "Authorization", "traceparent"}[t.Int(5)])
+					out[i].K = k
+				}
+				v := make([]byte, len(k))
+				for x, ch := range k {
+					switch {
+					case ch >= 'a' && ch <= 'z':
+						v[x] = ch - 32
+					case ch >= 'A' && ch <= 'Z':
+						v[x] = ch + 32
+					default:
+						v[x] = ch
+					}
+				}
+				out[i+1].K = v
+			}
 			if n >= 2 && t.Bool(1, 10) {
 				// two different keys with the same 32-bit hash (see collide.go)
 				i, j := first+t.Int(n), first+t.Int(n)
